@@ -4,7 +4,10 @@
 (* Every replica holds an abstract chain (sequence of block ids) and reaches it through its own  *)
 (* NODE-LOCAL history: straight line, restart before a block, rollback by k and re-application,  *)
 (* speculative validation / proposal of another block first, validate-then-insert, another host  *)
-(* time zone.  `obs[r]` is what the replica observes after its last block (head hash, state and  *)
+(* time zone; a replica of the set Lagging instead FALLS BEHIND ("lag": it does not see the block)*)
+(* and later CATCHES UP ("sync": it fetches everything it missed, the new block included, in one  *)
+(* batch through the full-sync code: one long-lived check state for the whole batch).            *)
+(* `obs[r]` is what the replica observes after its last block (head hash, state and  *)
 (* identity roots, flags, next-block parameters: next validation time, fee rate, VRF threshold,  *)
 (* shard count, discrimination threshold, validator-view sizes); in the model it is produced by  *)
 (* an uninterpreted transition function of (chain), in trace validation it is bound from what    *)
@@ -17,44 +20,53 @@ EXTENDS Integers, Sequences, FiniteSets, TLC
 
 CONSTANTS Replica,      \* set of replica names
           MaxHeight,    \* bound on the chain length (model runs)
-          Kinds         \* node-local history kinds
+          Kinds,        \* node-local history kinds
+          Lagging       \* replicas that may fall behind and catch up by full sync (their kinds are "lag" / "sync")
 
-VARIABLES chain,        \* [Replica -> Seq(block id)]
+VARIABLES net,          \* the chain the network has agreed on so far
+          chain,        \* [Replica -> Seq(block id)]
           obs,          \* [Replica -> observation]
           hist,         \* schedule so far: sequence of [h, pre] where pre: [Replica -> kind]   (export)
           pc            \* "idle" | "proposed": a proposal for the next height is out
 
-vars == <<chain, obs, hist, pc>>
+vars == <<net, chain, obs, hist, pc>>
 
 \* in the model a block id is its height and the observation an uninterpreted function of the chain
 F(c) == <<"obs-of", c>>
 
-Init == /\ chain = [r \in Replica |-> <<>>]
+Init == /\ net = <<>>
+        /\ chain = [r \in Replica |-> <<>>]
         /\ obs = [r \in Replica |-> F(<<>>)]
         /\ hist = <<>>
         /\ pc = "idle"
 
-Feasible(r, k) == \/ k \in {"line", "restart", "spec", "valins", "zone"}
-                  \/ (k = "rollback1" /\ Len(chain[r]) > 1)
-                  \/ (k = "rollback2" /\ Len(chain[r]) > 2)
-                  \/ (k = "rollback3" /\ Len(chain[r]) > 3)
+Feasible(r, k) == IF r \in Lagging THEN k \in {"lag", "sync"}
+                  ELSE /\ k \in Kinds
+                       /\ \/ k \in {"line", "restart", "spec", "valins", "zone"}
+                          \/ (k = "rollback1" /\ Len(chain[r]) > 1)
+                          \/ (k = "rollback2" /\ Len(chain[r]) > 2)
+                          \/ (k = "rollback3" /\ Len(chain[r]) > 3)
 
 (* one block: every replica first goes through a node-local pre-history, then applies the block *)
 Step(pre) == /\ Len(hist) < MaxHeight
-             /\ \A r \in Replica : pre[r] \in Kinds /\ Feasible(r, pre[r])
+             /\ \A r \in Replica : Feasible(r, pre[r])
              /\ LET b == Len(hist) + 1 IN
-                /\ chain' = [r \in Replica |-> Append(chain[r], b)]
+                /\ net' = Append(net, b)
+                \* a lagging replica keeps its stale chain; one that syncs jumps to the network's chain
+                /\ chain' = [r \in Replica |-> IF pre[r] = "lag" THEN chain[r] ELSE net']
                 /\ obs' = [r \in Replica |-> F(chain'[r])]
                 /\ hist' = Append(hist, pre)
              /\ pc' = "idle"
 
 \* at most one replica leaves the straight line per block (keeps the schedule space small; every
 \* replica still meets every kind of pre-history at every height)
-OneDeviates(pre) == Cardinality({r \in Replica : pre[r] # "line"}) <= 1
+OneDeviates(pre) == Cardinality({r \in Replica \ Lagging : pre[r] # "line"}) <= 1
 
-Next == \E pre \in [Replica -> Kinds] : OneDeviates(pre) /\ Step(pre)
+Next == \E pre \in [Replica -> Kinds \cup {"lag", "sync"}] : OneDeviates(pre) /\ Step(pre)
 
 Spec == Init /\ [][Next]_vars
 
 Agreement == \A a, b \in Replica : chain[a] = chain[b] => obs[a] = obs[b]
+\* a replica that is not lagging holds the network's chain; a lagging one holds a prefix of it
+InSyncOrPrefix == \A r \in Replica : IF r \in Lagging THEN SubSeq(net, 1, Len(chain[r])) = chain[r] ELSE chain[r] = net
 =============================================================================
